@@ -385,6 +385,16 @@ class C15(Prop):
                         "attrs": [{"keys": [], "xs": []}] * 3, "wellformed": True, "malformed": None, "explicit_values": True, "scalar": vals,
                         "scalar_list": as_list, "start": [2021, 5, 5], "step_days": 1,
                         "calls": [{"after": 0, "idx": [2, 0]}, {"after": 0, "idx": [1, 1, 1]}, {"after": 1, "idx": []}]})
+        # simulants become untracked during step 1; later requests (explicit labels, event.index, whole population) include them
+        out.append(dict(b2, extrapolate=True, attrs=attrs, untrack=[[1, [0, 3, 4, 9]]],
+                        calls=[{"after": 1, "idx": [9, 3, 5, 0]}, {"after": 2, "idx": "event"}, {"after": 1, "idx": "all"}, {"after": 0, "idx": [0, 3]}, {"after": 2, "idx": [4]}]))
+        out.append(dict(b2, extrapolate=False, attrs=attrs_in, untrack=[[1, [1, 6]]],
+                        calls=[{"after": 1, "idx": [6, 1, 2]}, {"after": 1, "idx": "all"}]))
+        out.append(dict(base, start=[2021, 5, 5], untrack=[[2, [1]]], calls=[{"after": 2, "idx": [1, 0]}, {"after": 3, "idx": "event"}]))
+        out.append(dict(cat, untrack=[[1, [0, 1]]], calls=[{"after": 1, "idx": [2, 1, 0]}, {"after": 2, "idx": [1]}, {"after": 1, "idx": "event"}]))
+        out.append({"kind": "scalar", "extrapolate": True, "keys": [], "params": [], "values": ["v0", "v1"], "rows": [], "attrs": [{"keys": [], "xs": []}] * 3,
+                    "wellformed": True, "malformed": None, "explicit_values": True, "scalar": [7, 8], "scalar_list": True, "start": [2021, 5, 5], "step_days": 1,
+                    "untrack": [[1, [2]]], "calls": [{"after": 1, "idx": [2, 0]}, {"after": 1, "idx": "all"}]})
         out.append({"kind": "unit", "bins": [0, 40, 100, 160], "xs": [0, 40, 39, 41, -12, 160, 161, 400, 100]})
         out.append({"kind": "unit", "bins": [5], "xs": [4, 5, 6]})
         return out
@@ -569,7 +579,8 @@ class C15(Prop):
         has_year = "year" in case["params"]
         for rec in obs["calls"]:
             c = self._call(case, rec)
-            where = f"call {c['idx']} after {c['after']} steps (clock {rec['year']} day {rec['yday']})"
+            where = (f"call {c['idx']}{'' if c['spec'] == 'labels' else ' = ' + c['spec']} after {c['after']} steps "
+                     f"(clock {rec['year']} day {rec['yday']}, untracked {rec['untracked']})")
             leap_dec31 = has_year and rec["yday"] == 366
             if case["kind"] == "scalar":
                 want = [[i, list(case["scalar"])] for i in c["idx"]]
@@ -603,7 +614,8 @@ class C15(Prop):
                     f.append({"sig": "in-range-call-rejected", "msg": f"{where}: {rec['outcome']}"})
                 continue
             if rec["index"] != c["idx"]:
-                f.append({"sig": "result-index", "msg": f"{where}: result index {rec['index']}"})
+                missing = [i for i in c["idx"] if i not in rec["index"]]
+                f.append({"sig": "result-index", "msg": f"{where}: result index {rec['index']}" + (f"; requested labels {missing} are missing" if missing else "")})
                 continue
             if rec["columns"] != case["values"]:
                 f.append({"sig": "result-columns", "msg": f"{where}: columns {rec['columns']}, value columns {case['values']}"})
@@ -627,7 +639,7 @@ class C15(Prop):
         # independence across calls made at the same clock
         by = {}
         for rec in obs["calls"]:
-            if rec["outcome"] == "ok" and rec.get("index") == case["calls"][rec["call"]]["idx"]:
+            if rec["outcome"] == "ok" and rec.get("index") == rec["idx"]:
                 for i, row in zip(rec["index"], rec["cells"]):
                     k = (i, rec["year"], rec["yday"])
                     if by.setdefault(k, row) != row:
@@ -666,6 +678,9 @@ class C15(Prop):
             c = self._call(case, rec)
             t.append("call:" + ("ok" if rec["outcome"] == "ok" else "no-table" if rec["outcome"] == "no-table" else "rejected:" + rec["outcome"][4:]))
             idx = c["idx"]
+            t.append("request:" + c["spec"])
+            if set(idx) & set(rec["untracked"]):
+                t.append("request:includes-untracked:" + case["kind"])
             t.append("index:" + ("empty" if not idx else "repeated" if len(set(idx)) < len(idx) else
                                  "permuted" if idx != sorted(idx) else "partial" if len(idx) < len(case["attrs"]) else "full"))
             if "year" in case["params"] and rec["yday"] >= 365:
